@@ -60,6 +60,8 @@ pub fn bn_rand(size: usize) -> ClResult<BigNumber> {
     trace!("Helpers::bn_rand: >>> size:: {:?}", size);
 
     let res = BigNumber::rand(size)?;
+    #[cfg(feature = "verif")]
+    crate::verif::tape_record("bn_rand", size, || crate::verif::bignum_dec(&res));
 
     trace!("Helpers::bn_rand: <<< res: {:?}", res);
 
@@ -75,6 +77,8 @@ pub fn bn_rand_range(bn: &BigNumber) -> ClResult<BigNumber> {
     trace!("Helpers::bn_rand_range: >>> bn:: {:?}", bn);
 
     let res = bn.rand_range()?;
+    #[cfg(feature = "verif")]
+    crate::verif::tape_record("bn_rand_range", 0, || crate::verif::bignum_dec(&res));
 
     trace!("Helpers::bn_rand_range: <<< res: {:?}", res);
 
@@ -112,6 +116,10 @@ pub fn generate_v_prime_prime() -> ClResult<BigNumber> {
     let a = bn_rand(LARGE_VPRIME_PRIME)?;
 
     let v_prime_prime = bitwise_or_big_int(&a, &LARGE_VPRIME_PRIME_VALUE)?;
+    #[cfg(feature = "verif")]
+    crate::verif::tape_record("generate_v_prime_prime", LARGE_VPRIME_PRIME, || {
+        crate::verif::bignum_dec(&v_prime_prime)
+    });
 
     trace!(
         "Helpers::generate_v_prime_prime: <<< v_prime_prime: {:?}",
@@ -127,6 +135,8 @@ pub fn generate_prime_in_range(size_bits: usize, range_bits: usize) -> ClResult<
         return BigNumber::from_dec("259344723055062059907025491480697571938277889515152306249728583105665800713306759149981690559193987143012367913206299323899696942213235956742930201588264091397308910346117473868881");
     }
 
+    #[cfg(feature = "verif")]
+    crate::verif::tape_record("generate_prime_in_range", size_bits * 10000 + range_bits, String::new);
     BigNumber::generate_prime_in_range(size_bits, range_bits)
 }
 
